@@ -20,7 +20,7 @@ func TestDbg(t *testing.T) {
 		for i := 0; i < 3000; i++ {
 			r := sim.Exec(C11, "C11", "quick", seed, sim.Options{Bubble: true, PanicIsViolation: true})
 			if r.Violation != nil && r.Violation.Class == "hang" {
-				fmt.Printf("iteration %d: %s\n%s\n", i, r.Violation.Key, lastDump)
+				fmt.Printf("iteration %d: %s poisoned=%v\n%v\n", i, r.Violation.Key, poisoned(), r.Events)
 				os.Exit(1)
 			}
 		}
